@@ -38,6 +38,8 @@ def run(ctx):
                                                          maxrows=30, bias="grow") for i, k in enumerate(ks)])
         judged += agg["runs"]
         full += agg["cache_full_discarded"]
+        if agg["runs"] == 0 and not ctx.violations:
+            raise vlib.Undecided("vacuous: no long small-cache run at production capacities was judged (all hit ErrLRUCacheFull too often)")
     finally:
         pool.close()
     cov["cache_full_runs_discarded"] = full
